@@ -2026,8 +2026,11 @@ func (e *CoreExtension) filterSort(value interface{}, args ...interface{}) (inte
 		// A list of numbers only is sorted numerically
 		allNumbers := true
 		for _, item := range v {
-			switch item.(type) {
-			case int, int8, int16, int32, int64, uint, uint8, uint16, uint32, uint64, float32, float64:
+			// (by kind: a value of a defined type such as `type Level int` is a number too)
+			switch reflect.ValueOf(item).Kind() {
+			case reflect.Int, reflect.Int8, reflect.Int16, reflect.Int32, reflect.Int64,
+				reflect.Uint, reflect.Uint8, reflect.Uint16, reflect.Uint32, reflect.Uint64,
+				reflect.Float32, reflect.Float64:
 			default:
 				allNumbers = false
 			}
